@@ -49,6 +49,7 @@ const (
 	aTableOps
 	aBare
 	aSelfLoop
+	aCycle
 )
 
 var attrNames = []string{
@@ -56,7 +57,7 @@ var attrNames = []string{
 	"site=block", "site=loop", "site=then", "site=else", "site=dead-then", "site=dead-else", "site=after-br", "site=after-br_if", "site=after-unreachable",
 	"site=then/else-pair", "site=call_indirect",
 	"refs=numeric", "exports=inline", "types=declared", "comments", "elem=one-segment",
-	"extra-globals", "memory", "data", "anonymous-func", "table.get/set", "no-support-exports", "self-call",
+	"extra-globals", "memory", "data", "anonymous-func", "table.get/set", "no-support-exports", "self-call", "mutual-recursion",
 }
 
 func attrString(a uint32) string {
@@ -155,7 +156,35 @@ func caseAttrs(s *Spec) uint32 {
 			a |= aSelfLoop
 		}
 	}
+	if hasCycle(s) {
+		a |= aCycle
+	}
 	return a
+}
+
+// hasCycle: the node graph has a directed cycle of length >= 2.
+func hasCycle(s *Spec) bool {
+	var reach [maxNode][maxNode]bool
+	for i := 0; i < s.N; i++ {
+		for j := 0; j < s.N; j++ {
+			reach[i][j] = i != j && s.edge(i, j)
+		}
+	}
+	for k := 0; k < s.N; k++ {
+		for i := 0; i < s.N; i++ {
+			for j := 0; j < s.N; j++ {
+				if reach[i][k] && reach[k][j] {
+					reach[i][j] = true
+				}
+			}
+		}
+	}
+	for i := 0; i < s.N; i++ {
+		if reach[i][i] {
+			return true
+		}
+	}
+	return false
 }
 
 // culpritAttrs: the features that make function f reachable. A root is reachable by its root
